@@ -12,9 +12,9 @@ fn random_float(min: Value, max: Value) -> Resolved {
         return Err("max must be greater than min".into());
     }
 
-    // Sampling from a range with an infinite bound panics inside `rand`.
-    if !(min.is_finite() && max.is_finite()) {
-        return Err("min and max must be finite".into());
+    // Sampling from a range with an infinite bound, or whose width overflows, panics inside `rand`.
+    if !(min.is_finite() && max.is_finite() && (max - min).is_finite()) {
+        return Err("min and max must be finite, and so must their difference".into());
     }
 
     let f: f64 = rand::rng().random_range(min..max);
@@ -30,8 +30,8 @@ fn get_range(min: Value, max: Value) -> std::result::Result<Range<f64>, &'static
         return Err(INVALID_RANGE_ERR);
     }
 
-    if !(min.is_finite() && max.is_finite()) {
-        return Err("min and max must be finite");
+    if !(min.is_finite() && max.is_finite() && (max - min).is_finite()) {
+        return Err("min and max must be finite, and so must their difference");
     }
 
     Ok(min..max)
